@@ -85,3 +85,46 @@ Definition delivered (outs : list (outcome (option frame))) : list frame :=
 (* what session sid is handed, in order *)
 Definition handed_to (sid : N) (outs : list (outcome (option frame))) : list frame :=
   filter (fun f => f_sid f =? sid) (delivered outs).
+
+(* ---- the demultiplexing loop and the per-session queues -------------------------------------------------------- *)
+(* quic_frames_thread hands every frame that comes out of the table to the bounded queue of its session
+   (create_quic_frames: channel(cap)); the session's relay task takes frames out at its own pace.
+   `waits = false`: try_send - a frame for a full queue is dropped (fix 6fd5f9f; read from the source by the translator,
+   Gen_udp.quic_demux_never_waits_for_a_session).  `waits = true`: send().await - the loop itself stops until that
+   session takes a frame (the code before the fix). *)
+Inductive dop := Deliver (f : frame) | Take (sid : N).
+
+Definition queues := list (N * list frame).          (* registered sessions with their queue contents, oldest first *)
+
+Inductive dres := Went (q : queues) (handed : list frame) | Stuck.
+
+(* one event.  handed = the frame a Take gives to its session's relay (at most one) *)
+Definition dstep (waits : bool) (cap : nat) (q : queues) (op : dop) : dres :=
+  match op with
+  | Deliver f =>
+      match alookup (f_sid f) q with
+      | None => Went q []                                      (* no such session: the frame is dropped *)
+      | Some l =>
+          if Nat.ltb (length l) cap then Went (ainsert (f_sid f) (l ++ [f]) q) []
+          else if waits then Stuck else Went q []
+      end
+  | Take sid =>
+      match alookup sid q with
+      | Some (f :: l) => Went (ainsert sid l q) [f]
+      | _ => Went q []
+      end
+  end.
+
+(* a run: what every session is handed, in order; with `waits` the run ends where the loop gets stuck *)
+Fixpoint drun (waits : bool) (cap : nat) (q : queues) (ops : list dop) : list frame :=
+  match ops with
+  | [] => []
+  | op :: rest =>
+      match dstep waits cap q op with
+      | Went q' h => h ++ drun waits cap q' rest
+      | Stuck => []
+      end
+  end.
+
+Definition concerns (sid : N) (op : dop) : bool :=
+  match op with Deliver f => f_sid f =? sid | Take s => s =? sid end.
